@@ -95,6 +95,20 @@ def _run(sc):
         except (AttributeError, TypeError):
             return None
     sim.projector = proj
+    # a peer that answers a frame at once (zero latency): the answer is fed to a stack while the sender of the frame is
+    # still inside its send call
+    brs = [dict(b, left=[b.get("times", 1)]) for b in sc.get("bus_react", [])]
+
+    def on_frame(idx, src, fr):
+        can_id = fr[0]
+        for b in brs:
+            if ((can_id >> 16) & 0xFF) == b["pf"] and (b.get("sa") is None or (can_id & 0xFF) == b["sa"]) and b["left"][0] > 0:
+                b["left"][0] -= 1
+                q = b["inject"]
+                sim.log({"ev": "ptx", "node": q["node"], "id": q["id"], "data": list(q["data"]), "fd": False, "ext": True})
+                sim.inject(sim.node(q["node"]), q["id"], q["data"])
+    if brs:
+        sim.on_frame = on_frame
     t0 = sim.now_us
     for o in sorted(sc["ops"], key=lambda o: o["t"]):
         if t0 + o["t"] > sim.now_us:
